@@ -438,5 +438,25 @@ def r14_6(ctx):
     return r
 
 
+def r14_7(ctx):
+    """'Inbound cleartext or unauthenticated RTP/RTCP is never delivered': the cut-set rules accept `unprotect(..) == Ok` as
+    'this datagram was authenticated'. For the HMAC profiles that rests on the tag comparator: if some bytes of the tag
+    are never compared - or, for the 4-byte tag of the SHA1_32 profile, none at all - every datagram authenticates and
+    cleartext is decrypted and delivered. This is rule R05.6 of C05 (same function, same obligations: every view of one
+    operand is paired with the same view of the other, and the views cover the operands for every length), claimed here
+    for the inbound clause of C14."""
+    r = RuleResult("R14.7", "K6", "the SRTP/SRTCP tag comparison covers the whole tag, for every tag length")
+    from rules import c05
+    rr = c05.r05_6(ctx)
+    r.scope = rr.scope
+    r.obligations, r.discharged = rr.obligations, rr.discharged
+    r.sites, r.floor = rr.sites, rr.floor
+    r.samples = rr.samples
+    for v in rr.violations:
+        r.violate(v.fn, v.site, v.where, v.msg, v.path)
+        r.obligations -= 1
+    return r
+
+
 def run(ctx):
-    return [r14_1(ctx), r14_2(ctx), r14_3(ctx), r14_4(ctx), r14_5(ctx), r14_6(ctx)]
+    return [r14_1(ctx), r14_2(ctx), r14_3(ctx), r14_4(ctx), r14_5(ctx), r14_6(ctx), r14_7(ctx)]
